@@ -27,3 +27,15 @@ Theorem C07_uid_iff_declared :
   forall sg id, (uid_for sg id = Some id <-> hs_uid sg = true) /\ (uid_for sg id = None <-> hs_uid sg = false).
 Proof. intros sg id. unfold uid_for. destruct (hs_uid sg); split; split; intros H; try reflexivity; discriminate. Qed.
 Print Assumptions C07_uid_iff_declared.
+
+(* The contract holds for every CALL of a sequence on one endpoint, whatever came before it (earlier CALLs whose handlers
+   or hooks failed, replies, malformed frames): in the run of the receive loop over any frame list, the i-th frame is
+   taken with the i-th receive and is followed by exactly the events [route_message] gives for that frame alone. *)
+Theorem C07_every_call_of_a_sequence :
+  forall c frames i f, routes_known c -> handlers_total c ->
+    nth_error frames i = Some f ->
+    exists pre post,
+      start shipped actions_of c frames =
+      pre ++ (LRecv i :: map LEv (route_message shipped actions_of c f)) ++ post.
+Proof. intros c frames i f Hk Ht. exact (start_contains_frame shipped actions_of c frames i f (routes_known_ok c Hk) Ht). Qed.
+Print Assumptions C07_every_call_of_a_sequence.
